@@ -126,6 +126,16 @@ func ssaTypeOfValue(p *pwPath, t, v ssa.Value) bool {
 // or reflect.ValueOf(x).Type() with x of a concrete static type. Returns that type, or nil.
 func staticRType(p *pwPath, t ssa.Value) types.Type {
 	t = p.resolve(t)
+	// a package variable that only its initialiser writes: what the initialiser stores
+	if ld, ok := t.(*ssa.UnOp); ok && ld.Op == token.MUL {
+		if g, ok := ld.X.(*ssa.Global); ok && g.Pkg != nil {
+			if w := worldOfProg(g.Pkg.Prog); w != nil {
+				if st := w.globalInitStore(g); st != nil {
+					return staticRType(p, st.Val)
+				}
+			}
+		}
+	}
 	var operand ssa.Value
 	if a, ok := reflectFunc(t, "TypeOf"); ok && len(a) == 1 {
 		operand = a[0]
@@ -278,6 +288,7 @@ func checkC12SSA(r *Run) {
 		missing bool
 		zero    bool
 		nilArg  bool
+		nilRepl bool // the zero value that stands in for an argument found to be nil (appended at a site of its own)
 	}
 	var supplied []suppliedVal
 	argSites := map[*ssa.Call]bool{}
@@ -359,8 +370,10 @@ func checkC12SSA(r *Run) {
 				}
 			}
 			// R4: a zero value built for a nil argument uses the type the assignability test of that site uses
+			nilRepl := false
 			if isZero {
 				nilKnown := false
+
 				for _, d := range p.decisions {
 					if x, op, ok := isNilCompare(p, d.cond); ok && d.truth == (op == token.EQL) {
 						if cal, _ := evalResult(p, x, 0); cal == cm.core.expr {
@@ -368,6 +381,7 @@ func checkC12SSA(r *Run) {
 						}
 					}
 				}
+				nilRepl = nilKnown
 				if nilKnown {
 					key := fmt.Sprint(app.Pos())
 					nv := nil4[key]
@@ -389,7 +403,7 @@ func checkC12SSA(r *Run) {
 			if fromEval {
 				argSites[app] = true
 			} else {
-				supplied = append(supplied, suppliedVal{app, missingArgsDecided(p, appOnPath), isZero, hasNilArgDecision(p, cm)})
+				supplied = append(supplied, suppliedVal{app, missingArgsDecided(p, appOnPath), isZero, hasNilArgDecision(p, cm), nilRepl})
 			}
 			// the helper context
 			if va, isVO := reflectFunc(v, "ValueOf"); isVO && len(va) == 1 {
@@ -424,6 +438,9 @@ func checkC12SSA(r *Run) {
 				nil4[key] = &siteVerdict{ok: false, pos: sv.app.Pos(), how: "a nil argument must become the zero VALUE of the expected type: reflect.New(T).Elem() or reflect.Zero(T) (reflect.New(T) alone is a pointer to T)"}
 			}
 			continue
+		}
+		if sv.zero && sv.nilRepl {
+			continue // not an automatic supply: the template wrote the argument, its value was nil (R4)
 		}
 		autoN++
 		if !sv.missing {
@@ -535,7 +552,15 @@ func missingArgsDecided(p *pwPath, app *ssa.Call) bool {
 			return false
 		}
 		sl, ok := c.Call.Args[0].Type().Underlying().(*types.Slice)
-		return ok && isReflectValueType(sl.Elem())
+		if ok && isReflectValueType(sl.Elem()) {
+			return true
+		}
+		// the number of arguments the template wrote: one value is appended per argument, so before
+		// anything is supplied the vector is as long as the argument list
+		if _, isArgs := isFieldLoadOf(p.resolve(c.Call.Args[0]), astPath, "CallExpression", "Arguments"); isArgs {
+			return true
+		}
+		return false
 	}
 	isNumIn := func(v ssa.Value) bool {
 		_, _, ok := typeInvoke(p, v, "NumIn")
